@@ -25,7 +25,14 @@ NCPU = 16
 DEFAULT_SEED = 20261001
 
 COQ_ARGS = ['-Q', COQ + '/theories/Core', 'Verif', '-Q', COQ + '/theories/Model', 'Verif',
-            '-Q', COQ + '/theories/Proofs', 'Verif', '-Q', COQ + '/theories/Props', 'Verif']
+            '-Q', COQ + '/theories/Proofs', 'Verif', '-Q', COQ + '/theories/Props', 'Verif',
+            '-Q', COQ + '/theories/Gen', 'Verif']
+
+# functions of /repo's source that are translated into the deep-embedded language of Core/PyLang.v on every
+# run (tools/py2coq.py); the refinement theorems (Proofs/*_Refine.v) are about these generated terms
+GEN = [('dit/math/sampling.py', 'Sampling_Gen.v', 'sampling',
+        ['_sample_discrete__python', '_last_positive', '_samples_discrete__python'])]
+REPO = os.environ.get('VERIF_REPO', '/repo')
 
 # ------------------------------------------------------------------------------------------
 # Coq literals
@@ -102,13 +109,42 @@ def sh(cmd, timeout, cwd=None):
         return 124, (out or '') + '\nTIMEOUT', time.time() - t0
 
 
-def build_theories(timeout=3000):
-    """Full .vo build of the development (no-op when up to date)."""
-    if not os.path.exists(os.path.join(COQ, 'Makefile')):
-        rc, out, _ = sh(['coq_makefile', '-f', '_CoqProject', '-o', 'Makefile'], 120, cwd=COQ)
+def regen():
+    """Re-translate the registered source functions; a source the translator cannot express leaves a
+    generated file without definitions, so that everything stated about it stops compiling."""
+    msgs = []
+    for src, out, modname, names in GEN:
+        dst = os.path.join(COQ, 'theories', 'Gen', out)
+        rc, o, _ = sh([sys.executable, os.path.join(ROOT, 'tools', 'py2coq.py'), os.path.join(REPO, src), dst, modname] + names, 120)
+        msgs.append('%s: %s' % (src, o.strip()))
+        if rc != 0:
+            text = '(* tools/py2coq.py could not translate %s: %s *)\n' % (src, o.strip().replace('*)', '* )'))
+            if not os.path.exists(dst) or open(dst).read() != text:
+                open(dst, 'w').write(text)
+    return msgs
+
+
+def build_theories(pid=None, timeout=3000):
+    """Regenerate the translated sources, then a full .vo build of the development (no-op when up to date).
+    The build keeps going past a failure; with pid, the verdict is that of the target Props/<pid>.vo, so a
+    proof that breaks alarms the properties that depend on it and no others."""
+    msgs = regen()
+    mk, cp = os.path.join(COQ, 'Makefile'), os.path.join(COQ, '_CoqProject')
+    if not os.path.exists(mk) or os.path.getmtime(mk) < os.path.getmtime(cp):
+        rc, out = sh(['coq_makefile', '-f', '_CoqProject', '-o', 'Makefile'], 120, cwd=COQ)[:2]
         if rc != 0:
             return rc, out
-    rc, out, _ = sh(['make', '-j%d' % NCPU], timeout, cwd=COQ)
+    rc, out, _ = sh(['make', '-k', '-j%d' % NCPU], timeout, cwd=COQ)
+    if rc != 0 and pid is not None:
+        rc2, out2, _ = sh(['make', 'theories/Props/%s.vo' % pid], timeout, cwd=COQ)
+        return rc2, '\n'.join(msgs) + '\n' + (out2 if rc2 != 0 else '')
+    return rc, '\n'.join(msgs) + '\n' + out
+
+
+def build_targets(names, timeout=3000):
+    """make the named modules (e.g. Model/C12_Model) only; used to keep the hand-written model running
+    for the search of a failing input when a proof no longer checks"""
+    rc, out, _ = sh(['make'] + ['theories/%s.vo' % n for n in names], timeout, cwd=COQ)
     return rc, out
 
 
